@@ -99,7 +99,12 @@ static void run_history(int model, long mp, bool nosym, const std::vector<Op>& o
                 s0.IndexInfo->printIndices();
                 for (int m = 0; m < nm; m++) { IndexClassification::IndexInfo info = s0.IndexInfo->getInfo(m); if ((int)s0.IndexInfo->getIndex(info) != m) cnt.unexpected = "IndexClassification::getIndex(getInfo(i)) != i"; s0.IndexInfo->checkIndex(m); }
                 try { s0.IndexInfo->getInfo(nm); cnt.unexpected = "IndexClassification::getInfo(out of range) did not throw"; } catch (std::exception&) { cnt.expected_exc++; }
-                { Symmetrizer Sy2(*s0.IndexInfo, *s0.Storage); std::vector<Operator> iom; iom.push_back(OperatorPresets::N(nm)); Sy2.compute(iom); (void)Sy2.getQuantumNumbers(); StatesClassification S2(*s0.IndexInfo, Sy2); S2.compute(); sink = sink + S2.NumberOfBlocks(); }
+                { // user-supplied integrals of motion: N and every single-mode occupation that is conserved (all of them for density-density models)
+                  Symmetrizer Sy2(*s0.IndexInfo, *s0.Storage); std::vector<Operator> iom; iom.push_back(OperatorPresets::N(nm));
+                  for (int m = 0; m < nm; m++) { Operator n_m = OperatorPresets::N_offdiag(m, m); if (s0.Storage->commutes(n_m)) iom.push_back(n_m); }
+                  Sy2.compute(iom); (void)Sy2.getQuantumNumbers();
+                  StatesClassification S2(*s0.IndexInfo, Sy2); S2.compute(); sink = sink + S2.NumberOfBlocks();
+                  Hamiltonian H2(*s0.IndexInfo, *s0.Storage, S2); H2.prepare(comm); H2.compute(comm); sink = sink + H2.getGroundEnergy(); }
                 for (auto& o : s0.Symm->getOperations()) use(MelemType(o->commutes(*s0.Storage)));
                 if (hComp) for (BlockNumber b = 0; b < s0.S->NumberOfBlocks(); b++) {
                     const HamiltonianPart& hp = s0.H->getPart(b);
@@ -271,7 +276,7 @@ static hc::Outcome run_one(hc::RunSpec& rs) {
     int P; { int x = r.below(100); P = x < 40 ? 1 : x < 70 ? 2 : x < 88 ? 3 : 4; }
     c.def("P", P); P = std::max(1, std::min(8, (int)c.i("P"))); c.set("P", P);
     bool big = c.i("big", 0) != 0;
-    int model; { int x = r.below(100); model = x < 22 ? models::ATOM : x < 55 ? models::DIMER : x < 70 ? models::KANAMORI : x < 78 ? models::ATOM_FIELD : x < 85 ? models::DIMER_FIELD : x < 91 ? models::ATOMS2 : x < 96 ? models::EXCH2 : (big ? (r.pct(50) ? models::CHAIN3 : models::T2G) : models::KANAMORI); }
+    int model; { int x = r.below(100); model = x < 22 ? models::ATOM : x < 55 ? models::DIMER : x < 70 ? models::KANAMORI : x < 78 ? models::ATOM_FIELD : x < 84 ? models::DIMER_FIELD : x < 89 ? models::ATOMS2 : x < 93 ? models::EXCH2 : x < 96 ? models::TINYDIMER : x < 98 ? models::ATOMS3 : (big ? (r.pct(50) ? models::CHAIN3 : models::T2G) : models::KANAMORI); }
     c.def("model", model); model = (int)c.i("model") % models::N_MODELS; if (model < 0) model = 0; c.set("model", model);
     c.def("mp", r.pct(15) ? 0 : r.range(1, 100000));
     c.def("nosym", r.pct(40));   // one block: off-diagonal components whose sparse matrices have different sparsity patterns
